@@ -20,6 +20,7 @@
 #include <csetjmp>
 #include <cstdlib>
 #include <cerrno>
+#include <climits>
 #include <algorithm>
 #include <sys/uio.h>
 #include "types.h"
@@ -254,7 +255,7 @@ static_assert(sizeof(mpt::array) == sizeof(mpt::buffer *), "array layout");
 struct Mdl { const mpt::type_traits *tr; std::vector<uint8_t> b; };
 
 enum RK { C_APPEND, C_INSERT, C_SLICE, C_SET, C_RESERVE, C_REDUCE, C_PRINTF, C_STRING, C_CUT, C_BINSERT, C_BSET, C_CLONE, R_SWAP, S_ASSIGN, S_CLEAR, S_WRITE, S_TAKE, S_CONSUME,
-          X_APPEND, X_INSERT, X_PREPEND, X_SET, X_ASSIGN, X_CLEAR, X_FROMSLICE, X_ADD, X_PRINTF, X_STRING, X_SETVALUE, X_SETREF, XS_FROM, XS_CLEAR, XS_SHIFT, XS_TRIM, XS_WRITE, XS_TAKE, C_DETACH };
+          X_APPEND, X_INSERT, X_PREPEND, X_SET, X_ASSIGN, X_CLEAR, X_FROMSLICE, X_ADD, X_PRINTF, X_STRING, X_SETVALUE, X_SETREF, XS_FROM, XS_CLEAR, XS_SHIFT, XS_TRIM, XS_WRITE, XS_TAKE, C_DETACH, C_HUGE, S_HUGE, X_HUGE };
 struct Inst { int k, a, b, c; };
 static const char *Pn[] = { "0", "1", "used-1", "used", "used+2", "used/2" };
 static const char *Ln[] = { "0", "1", "3", "left-1", "left", "left+1" };
@@ -270,8 +271,10 @@ static void build_tables()
 	for (int pi = 0; pi < 6; ++pi) for (int li = 0; li < 6; ++li) c.push_back(Inst{C_INSERT, pi, li, 0});
 	for (int pi = 0; pi < 6; ++pi) for (int li = 0; li < 6; ++li) c.push_back(Inst{C_SLICE, pi, li, 0});
 	for (int di = 0; di < 7; ++di) c.push_back(Inst{C_DETACH, di, 0, 0});
+	for (int hi = 0; hi < 14; ++hi) c.push_back(Inst{C_HUGE, hi, 0, 0});
+	c.push_back(Inst{S_HUGE, 0, 0, 0}); c.push_back(Inst{S_HUGE, 2, 0, 0});      // (a block count whose source the caller cannot own is no test input)
 	{ int ls[] = {0, 1, 2, 5}; for (int l : ls) for (int oi = 0; oi < 7; ++oi) c.push_back(Inst{C_SET, l, oi, 1}); c.push_back(Inst{C_SET, 2, 0, 0}); c.push_back(Inst{C_SET, 2, 5, 0}); }
-	for (int li = 0; li < 5; ++li) for (int t = 0; t < 3; ++t) c.push_back(Inst{C_RESERVE, li, t, (li + t) % 2});
+	for (int li = 0; li < 5; ++li) for (int t = 0; t < 4; ++t) c.push_back(Inst{C_RESERVE, li, t, (li + t) % 2});
 	c.push_back(Inst{C_REDUCE, 0, 0, 0});
 	for (int t = 0; t < 7; ++t) c.push_back(Inst{C_PRINTF, t, 0, 0});
 	c.push_back(Inst{C_STRING, 0, 0, 0});
@@ -293,7 +296,7 @@ static void build_tables()
 	x.push_back(Inst{X_PREPEND, 1, 1, 0}); x.push_back(Inst{X_PREPEND, 2, 0, 0});
 	for (int si = 0; si < 7; ++si) x.push_back(Inst{X_SET, si, si % 3 ? 1 : 0, 0});
 	x.push_back(Inst{X_ASSIGN, 0, 1, 0}); x.push_back(Inst{X_ASSIGN, 1, 0, 0}); x.push_back(Inst{X_CLEAR, 0, 0, 0}); x.push_back(Inst{X_CLEAR, 1, 0, 0});
-	x.push_back(Inst{X_FROMSLICE, 0, 0, 0}); x.push_back(Inst{X_ADD, 0, 0, 0});
+	x.push_back(Inst{X_FROMSLICE, 0, 0, 0}); x.push_back(Inst{X_ADD, 0, 0, 0}); x.push_back(Inst{X_ADD, 1, 0, 0});
 	for (int t = 0; t < 7; ++t) x.push_back(Inst{X_PRINTF, t, 0, 0});
 	x.push_back(Inst{X_STRING, 0, 0, 0});
 	x.push_back(Inst{X_SETVALUE, 0, 0, 0}); x.push_back(Inst{X_SETVALUE, 1, 0, 0}); x.push_back(Inst{X_SETVALUE, 2, 0, 0});
@@ -302,6 +305,8 @@ static void build_tables()
 	x.push_back(Inst{XS_FROM, 0, 0, 0}); x.push_back(Inst{XS_FROM, 1, 0, 0}); x.push_back(Inst{XS_CLEAR, 0, 0, 0});
 	for (int n = 0; n < 6; ++n) { x.push_back(Inst{XS_SHIFT, n, 0, 0}); x.push_back(Inst{XS_TRIM, n, 0, 0}); }
 	x.push_back(Inst{XS_TAKE, 0, 0, 0});
+	for (int hi = 0; hi < 4; ++hi) x.push_back(Inst{X_HUGE, hi, 0, 0});
+	x.push_back(Inst{S_HUGE, 0, 1, 0}); x.push_back(Inst{S_HUGE, 2, 1, 0});
 	for (int ni = 0; ni < 4; ++ni) for (int zi = 0; zi < 7; ++zi) x.push_back(Inst{XS_WRITE, ni, zi, 1});
 	x.push_back(Inst{XS_WRITE, 1, 1, 0}); x.push_back(Inst{XS_WRITE, 2, 2, 0}); x.push_back(Inst{XS_WRITE, 1, 5, 0});
 }
@@ -458,7 +463,7 @@ template <int API> std::string RawSys<API>::opname(int op)
 	case C_INSERT: return fmt("mpt_array_insert(a0,%s,%s)", Pn[in.a], Ln[in.b]);
 	case C_SLICE: return fmt("mpt_array_slice(a0,%s,%s)+write", Pn[in.a], Ln[in.b]);
 	case C_SET: { static const char *on[] = { "0", "1", "-1", "-(n+1)", "n", "n+2", "n/2" }; return fmt("mpt_array_set(a0,type,%s,%s,%s)", Ln[in.a], in.c ? "data" : "NULL", on[in.b]); }
-	case C_RESERVE: { static const char *rn[] = { "0", "used-1", "used", "cap", "cap+1" }; return fmt("mpt_array_reserve(a0,%s,%s)%s", rn[in.a], trname(trsel(in.b)), in.c ? "+buffer_set" : ""); }
+	case C_RESERVE: { static const char *rn[] = { "0", "used-1", "used", "cap", "cap+1" }; return fmt("mpt_array_reserve(a0,%s,%s)%s", rn[in.a], in.b == 3 ? "current type" : trname(trsel(in.b)), in.c ? "+buffer_set" : ""); }
 	case C_REDUCE: return "mpt_array_reduce(a0)";
 	case C_PRINTF: case X_PRINTF: { static const char *tn[] = { "0", "5", "left-1", "left", "left+1", "70", "%d" }; return fmt("%s(a0,text:%s)", in.k == C_PRINTF ? "mpt_printf" : "array::printf", tn[in.a]); }
 	case C_STRING: return "mpt_array_string(a0)";
@@ -466,6 +471,11 @@ template <int API> std::string RawSys<API>::opname(int op)
 	case C_BINSERT: return fmt("mpt_buffer_insert(a0.buf,%s,%s)", Pn[in.a], Ln[in.b]);
 	case C_BSET: return fmt("mpt_buffer_set(a0.buf,%s,%s,%s)", Pn[in.a], in.c ? "data" : "NULL", Ln[in.b]);
 	case C_DETACH: { static const char *dn[] = { "0", "1 element", "used-1 element", "used", "used+1", "64", "65" }; return fmt("a0.buf->detach(%s)", dn[in.a]); }
+	case C_HUGE: { static const char *hn[] = { "mpt_array_insert(a0,SIZE_MAX-1,10)", "mpt_array_insert(a0,SIZE_MAX,1)", "mpt_array_insert(a0,LONG_MAX+1,1)", "mpt_buffer_insert(a0.buf,SIZE_MAX-1,10)", "mpt_buffer_insert(a0.buf,SIZE_MAX,1)",
+		"mpt_array_append(a0,SIZE_MAX-used,NULL)", "mpt_array_append(a0,SIZE_MAX-used-70,NULL)", "mpt_array_slice(a0,0,SIZE_MAX-10)", "mpt_array_slice(a0,used,SIZE_MAX-used-70)", "mpt_array_set(a0,type,1 element,data,LONG_MAX/size-100)",
+		"mpt_array_reserve(a0,SIZE_MAX-10,current type)", "a0.buf->detach(SIZE_MAX-10)", "mpt_buffer_cut(a0.buf,SIZE_MAX-1,2)", "mpt_buffer_set(a0.buf,SIZE_MAX-1,data,10)" }; return hn[in.a]; }
+	case S_HUGE: { static const char *hn[] = { "(2,data,2^63)", "(2^62+1,data,4)", "(SIZE_MAX-window end,NULL,0)" }; return std::string(in.b ? "slice::write" : "mpt_slice_write") + hn[in.a]; }
+	case X_HUGE: { static const char *hn[] = { "array::insert(SIZE_MAX-1,10,data)", "array::append(SIZE_MAX-used,NULL)", "array::set(SIZE_MAX-10,NULL)", "array::prepend(SIZE_MAX-10,NULL)" }; return hn[in.a]; }
 	case C_CLONE: return fmt("mpt_array_clone(a%d,%s)", in.a, in.b == 0 ? fmt("a%d", 1 - in.a).c_str() : (in.b == 1 ? "NULL" : "slice.array"));
 	case R_SWAP: return "swap(a0,a1)";
 	case S_ASSIGN: { static const char *wn[] = { "all", "inner", "empty-at-end", "prefix" }; return fmt("slice=a%d[%s]", in.a, wn[in.b]); }
@@ -481,7 +491,7 @@ template <int API> std::string RawSys<API>::opname(int op)
 	case X_ASSIGN: return fmt("a%d=a%d", in.a, in.b);
 	case X_CLEAR: return fmt("a%d=array()", in.a);
 	case X_FROMSLICE: return "a0=slice";
-	case X_ADD: return "a0+=*a1.data()";
+	case X_ADD: return in.a ? "a0+=*a0.data()" : "a0+=*a1.data()";
 	case X_STRING: return "array::string()";
 	case X_SETVALUE: return fmt("array::set(value:%s)", in.a == 0 ? "string" : (in.a == 1 ? "empty-string" : "vector"));
 	case X_SETREF: return "a0.set(reference<buffer>(a1))";
@@ -498,7 +508,7 @@ static const char *raw_hint(int k)
 	static const char *n[] = { "mpt_array_append", "mpt_array_insert", "mpt_array_slice", "mpt_array_set", "mpt_array_reserve", "mpt_array_reduce", "mpt_printf", "mpt_array_string",
 		"mpt_buffer_cut", "mpt_buffer_insert", "mpt_buffer_set", "mpt_array_clone", "swap", "slice=", "slice=", "mpt_slice_write", "slice=", "slice.off+=",
 		"array::append", "array::insert", "array::prepend", "array::set", "array::operator=", "array::operator=", "array::operator=(slice)", "array::operator+=", "array::printf", "array::string",
-		"array::set(value)", "array::set(reference)", "slice=", "slice=", "slice::shift", "slice::trim", "slice::write", "slice=", "buffer::detach" };
+		"array::set(value)", "array::set(reference)", "slice=", "slice=", "slice::shift", "slice::trim", "slice::write", "slice=", "buffer::detach", "huge-argument", "mpt_slice_write", "huge-argument" };
 	return n[k];
 }
 template <int API> bool RawSys<API>::apply(int op)
@@ -508,6 +518,7 @@ template <int API> bool RawSys<API>::apply(int op)
 	fault = 0;
 	asan_error();
 	if (in.k == R_SWAP) {
+		++nap;
 		if (h[0].b == h[1].b) return false;
 		std::swap(h[0].b, h[1].b); std::swap(m[0], m[1]);
 		return true;
@@ -529,7 +540,7 @@ template <int API> bool RawSys<API>::apply(int op)
 	if (frontier && !g_child && !r.replaying) {
 		// structural class of everything the step can touch
 		Out k; k.u(API); k.c('/'); k.u(op); k.c('/');
-		if (in.k == S_WRITE || in.k == XS_WRITE || in.k == XS_SHIFT || in.k == XS_TRIM || in.k == S_CONSUME) { bufcanon_w(k, h[2].b); k.c('o'); k.cls(h[2].off, 3); k.c('n'); k.cls(h[2].len, 3); k.c(h[2].b && h[2].off + h[2].len == h[2].b->_used ? 'E' : 'I'); }
+		if (in.k == S_WRITE || in.k == XS_WRITE || in.k == XS_SHIFT || in.k == XS_TRIM || in.k == S_CONSUME || in.k == S_HUGE) { bufcanon_w(k, h[2].b); k.c('o'); k.cls(h[2].off, 3); k.c('n'); k.cls(h[2].len, 3); k.c(h[2].b && h[2].off + h[2].len == h[2].b->_used ? 'E' : 'I'); }
 		else if (in.k == C_CLONE || in.k == X_ASSIGN || in.k == X_ADD || in.k == X_SETREF || in.k == S_ASSIGN || in.k == S_CLEAR || in.k == XS_FROM || in.k == XS_CLEAR || in.k == X_FROMSLICE || in.k == S_TAKE || in.k == XS_TAKE) {
 			bufcanon_w(k, h[0].b); bufcanon_w(k, h[1].b); bufcanon_w(k, h[2].b); k.c('o'); k.cls(h[2].off, 3); k.c('n'); k.cls(h[2].len, 3);
 			if (h[0].b == h[1].b) k.c('='); if (h[0].b == h[2].b) k.c('~'); if (h[1].b == h[2].b) k.c('^');
@@ -711,8 +722,8 @@ template <int API> bool RawSys<API>::apply_c(const Inst &in)
 	case C_RESERVE: {
 		long R[5] = { 0, (long) used - 1, (long) used, (long) cap, (long) cap + 1 };
 		if (!pick(R, in.a, len)) return false;
-		const type_traits *T = trsel(in.b), *old = b ? b->_content_traits : 0;
-		bool nocopy_shared = b && (b->get_flags() & BufferNoCopy) && (b->get_flags() & (BufferShared | BufferImmutable));
+		const type_traits *old = b ? b->_content_traits : 0, *T = in.b == 3 ? old : trsel(in.b);
+		if (in.b == 3 && trid(old) < 3) return false;      // raw, 'c', 'y' have their own letters
 		mk("array_reserve", std::string(T == old ? "same-type" : "type-change") + ((size_t) len < used ? ",len<used" : ((size_t) len <= cap ? ",fits" : ",exceeds-capacity"))); nontrivial(b);
 		mpt::buffer *ret = 0;
 		fault = guarded([&] { mc::Lib l; ret = mpt_array_reserve(arr(0), len, T); });
@@ -721,9 +732,11 @@ template <int API> bool RawSys<API>::apply_c(const Inst &in)
 			if (ret != h[0].b || ret->_content_traits != T || ret->_size < (size_t) len) { V(base + "wrong-result", desc + ": returned buffer is not installed / has the wrong type / is too small"); return false; }
 			std::vector<uint8_t> got; std::string why;
 			if (!read(0, got, why)) { V(base + "wrong-content", desc + ": " + why); dead = true; return false; }
-			bool prefix = got.size() <= mb.size() && std::equal(got.begin(), got.end(), mb.begin()) && got.size() >= std::min(used, (size_t) len);
-			if (!prefix && !(got.empty() && (T != old || nocopy_shared))) { V(base + "wrong-content", desc + ": content after reserve is neither the old content (possibly cut to the reserved size) nor empty after a type change: " + diffdesc(got, mb)); return false; }
-			if (got.size() < mb.size()) stat(got.empty() ? "reserve:content-dropped(not flagged)" : "reserve:content-cut(not flagged)");
+			// reserving space never changes what a value vector contains: with the element type unchanged the content must be kept whatever the
+			// size, flags or share state; only a change of the element type resets it (documented: "change buffer content type")
+			if (T == old ? got != mb : (!got.empty() && got != mb)) { V(base + "wrong-content", desc + ": successful reserve changed the content: " + diffdesc(got, mb)); return false; }
+			if (got.size() < mb.size()) stat("reserve:content-reset-on-type-change(not flagged)");
+			if (T == old && used && b && ret != b) stat("reserve:same-type,private-copy-keeps-content");
 			mb = got;
 			if (in.c && len >= 1) {      // documented use: the caller fills the reserved buffer through the buffer-level calls (meta_new.c)
 				long rc = -1;
@@ -796,6 +809,44 @@ template <int API> bool RawSys<API>::apply_c(const Inst &in)
 			mb = got;
 		}
 		return check(base, desc, 0, !ret); }
+	case C_HUGE: {
+		// offsets / lengths near SIZE_MAX or LONG_MAX: nothing of the kind lies inside any data, the size arithmetic must not wrap; all must be refused
+		const size_t SM = SIZE_MAX;
+		const type_traits *ST = b && b->_content_traits ? b->_content_traits : T_Y;
+		static const char *on[] = { "array_insert", "array_insert", "array_insert", "buffer_insert", "buffer_insert", "array_append", "array_append", "array_slice", "array_slice", "array_set", "array_reserve", "buffer_detach", "buffer_cut", "buffer_set" };
+		if ((in.a == 3 || in.a == 4 || in.a == 12 || in.a == 13) && !sole) return false;
+		if (in.a == 11 && !b) return false;
+		mk(on[in.a], "beyond-address-range"); nontrivial(b);
+		bool accepted = false;
+		fault = guarded([&] { mc::Lib l;
+			switch (in.a) {
+			case 0: accepted = mpt_array_insert(arr(0), SM - 1, 10) != 0; break;
+			case 1: accepted = mpt_array_insert(arr(0), SM, 1) != 0; break;
+			case 2: accepted = mpt_array_insert(arr(0), (size_t) LONG_MAX + 1, 1) != 0; break;
+			case 3: accepted = mpt_buffer_insert(b, SM - 1, 10) != 0; break;
+			case 4: accepted = mpt_buffer_insert(b, SM, 1) != 0; break;
+			case 5: accepted = mpt_array_append(arr(0), SM - used, 0) != 0; break;
+			case 6: accepted = mpt_array_append(arr(0), SM - used - 70, 0) != 0; break;
+			case 7: accepted = mpt_array_slice(arr(0), 0, SM - 10) != 0; break;
+			case 8: accepted = mpt_array_slice(arr(0), used, SM - used - 70) != 0; break;
+			case 9: accepted = mpt_array_set(arr(0), ST, ST->size, PAT, LONG_MAX / (long) ST->size - 100) != 0; break;
+			case 10: accepted = mpt_array_reserve(arr(0), SM - 10, b ? b->_content_traits : 0) != 0; break;
+			case 11: { mpt::buffer *nb = b->detach(SM - 10); if (nb) { h[0].b = nb; accepted = true; } break; }
+			case 12: accepted = mpt_buffer_cut(b, SM - 1, 2) >= 0; break;
+			default: accepted = mpt_buffer_set(b, b->_content_traits, SM - 1, PAT, 10) >= 0; } });
+		if (!fault) stat(accepted ? "huge-argument:accepted" : "huge-argument:refused");
+		return check(base, desc, 0, !accepted, true); }
+	case S_HUGE: {
+		const size_t NB[3] = { 2, ((size_t) 1 << 62) + 1, SIZE_MAX - (h[2].off + h[2].len) }, SZ[3] = { (size_t) 1 << 63, 4, 0 };
+		st = stcls(h[2].b);
+		mk("slice_write", "beyond-address-range"); nontrivial(h[2].b);
+		size_t off = h[2].off, n = h[2].len; ssize_t ret = -1;
+		fault = guarded([&] { mc::Lib l; ret = mpt_slice_write(sl(), NB[in.a], in.a < 2 ? PAT : 0, SZ[in.a]); });
+		// preparing space (size 0) reports how often the request fits: 0 = it does not; data writes report the elements taken: none of this size can be
+		bool accepted = ret > 0;
+		if (!fault) stat(accepted ? "huge-argument:accepted" : "huge-argument:refused");
+		if (!fault && !accepted && (h[2].off != off || h[2].len != n)) { V(base + "refused-but-changed", desc + ": refused but the window changed"); return false; }
+		return check(base, desc, 2, !accepted, true); }
 	case C_CLONE: {
 		int d = in.a, s = in.b == 0 ? 1 - d : (in.b == 2 ? 2 : -1);
 		mpt::buffer *db = h[d].b, *sb = s >= 0 ? h[s].b : 0;
@@ -928,12 +979,14 @@ template <int API> bool RawSys<API>::apply_x(const Inst &in)
 		if (!fault) { realloc_seen(); mb = v; }
 		return check(base, desc, 0, false); }
 	case X_ADD: {
-		if (!h[1].b) return false;
-		len = h[1].b->_used; pos = used;
-		mk("array::operator+=", argcls(used, len, used, cap, false) + (h[1].b == b ? ",same-buffer" : "")); nontrivial(b);
-		fault = guarded([&] { mc::Lib l; *arr(0) += *arr(1)->data(); });
+		int src = in.a ? 0 : 1;      // appending the array's own content is what v.insert(v.end(), v.begin(), v.end()) does for a vector
+		if (!h[src].b) return false;
+		len = h[src].b->_used; pos = used;
+		mk("array::operator+=", argcls(used, len, used, cap, false) + (in.a ? ",own-content" : (h[1].b == b ? ",same-buffer" : ""))); nontrivial(b);
+		fault = guarded([&] { mc::Lib l; *arr(0) += *arr(src)->data(); });
 		bool refused = !fault && (h[0].b ? (size_t) h[0].b->_used : 0) == used && len;   // no result is reported: unchanged length = refused
-		if (!fault && !refused) { realloc_seen(); std::vector<uint8_t> add = m[1].b; mb.insert(mb.end(), add.begin(), add.end()); }
+		if (in.a && !fault && !refused) stat(used + len > cap ? "append-own-content,reallocating" : "append-own-content,in-place");
+		if (!fault && !refused) { realloc_seen(); std::vector<uint8_t> add = m[src].b; mb.insert(mb.end(), add.begin(), add.end()); }
 		return check(base, desc, 0, refused); }
 	case X_PRINTF: {
 		long TL[6] = { 0, 5, (long) left - 1, (long) left, (long) left + 1, 70 };
@@ -1008,6 +1061,28 @@ template <int API> bool RawSys<API>::apply_x(const Inst &in)
 		if (!fault && ok && !must && (h[2].off != woff || h[2].len != wlen)) { V(base + "wrong-result", desc + fmt(": window off=%zu len=%zu, expected %zu/%zu", (size_t) h[2].off, (size_t) h[2].len, woff, wlen)); return false; }
 		if (!fault && !ok && (h[2].off != off || h[2].len != n)) { V(base + "refused-but-changed", desc + ": refused but the window moved"); return false; }
 		return check(base, desc, 2, !ok, must); }
+	case X_HUGE: {
+		static const char *on[] = { "array::insert", "array::append", "array::set", "array::insert" };
+		mk(on[in.a], "beyond-address-range"); nontrivial(b);
+		bool accepted = false;
+		fault = guarded([&] { mc::Lib l;
+			switch (in.a) {
+			case 0: accepted = arr(0)->insert(SIZE_MAX - 1, 10, PAT) != 0; break;
+			case 1: accepted = arr(0)->append(SIZE_MAX - used, 0) != 0; break;
+			case 2: accepted = arr(0)->set(SIZE_MAX - 10, 0) != 0; break;
+			default: accepted = arr(0)->prepend(SIZE_MAX - 10, 0) != 0; } });
+		if (!fault) stat(accepted ? "huge-argument:accepted" : "huge-argument:refused");
+		return check(base, desc, 0, !accepted, true); }
+	case S_HUGE: {
+		const size_t NB[3] = { 2, ((size_t) 1 << 62) + 1, SIZE_MAX - (h[2].off + h[2].len) }, SZ[3] = { (size_t) 1 << 63, 4, 0 };
+		st = stcls(h[2].b);
+		mk("slice_write", "beyond-address-range"); nontrivial(h[2].b);
+		size_t off = h[2].off, n = h[2].len; ssize_t ret = -1;
+		fault = guarded([&] { mc::Lib l; ret = sl()->write(NB[in.a], in.a < 2 ? PAT : 0, SZ[in.a]); });
+		bool accepted = ret > 0;
+		if (!fault) stat(accepted ? "huge-argument:accepted" : "huge-argument:refused");
+		if (!fault && !accepted && (h[2].off != off || h[2].len != n)) { V(base + "refused-but-changed", desc + ": refused but the window changed"); return false; }
+		return check(base, desc, 2, !accepted, true); }
 	case XS_TAKE: {
 		if (!b) return false;
 		st = stcls(h[2].b);
@@ -1061,7 +1136,7 @@ static std::string tcanon(mpt::buffer *b, size_t esz)
 template <class T> static std::string vecs(const std::vector<T> &v) { std::string s = "["; for (size_t i = 0; i < v.size() && i < 24; ++i) s += (i ? "," : "") + std::to_string((long) v[i]); if (v.size() > 24) s += fmt(",..(%zu)", v.size()); return s + "]"; }
 
 // ---- typed_array<int> x2 + unique_array<int>
-enum TK { TK_INSERT, TK_SET, TK_GET, TK_RESIZE, TK_RESERVE, TK_DETACH, TK_OFFSET, TK_ASSIGN, TK_SWAP };
+enum TK { TK_INSERT, TK_SET, TK_GET, TK_RESIZE, TK_RESERVE, TK_DETACH, TK_OFFSET, TK_ASSIGN, TK_SWAP, TK_INSOWN, TK_HUGE };
 static std::vector<Inst> g_ttab;
 static void build_ttab()
 {
@@ -1075,6 +1150,8 @@ static void build_ttab()
 		for (int i = 0; i < 3; ++i) g_ttab.push_back(Inst{TK_OFFSET, w, i, 0});
 	}
 	for (int i = 0; i < 6; ++i) g_ttab.push_back(Inst{TK_ASSIGN, i, 0, 0});
+	for (int i = 0; i < 3; ++i) for (int k = 0; k < 2; ++k) g_ttab.push_back(Inst{TK_INSOWN, 0, i, k});
+	for (int w = 0; w < 3; w += 2) for (int i = 0; i < 5; ++i) g_ttab.push_back(Inst{TK_HUGE, w, i, 0});
 	g_ttab.push_back(Inst{TK_SWAP, 0, 0, 0});
 }
 struct TSys {
@@ -1152,6 +1229,8 @@ struct TSys {
 		case TK_DETACH: return fmt("%s.detach()", w);
 		case TK_OFFSET: return fmt("%s.offset(%s)", w, of[in.b]);
 		case TK_ASSIGN: return as[in.a];
+		case TK_INSOWN: { static const char *ip[] = { "0", "n", "n/2" }; return fmt("t0.insert(%s,*t0.get(%s))", ip[in.b], in.c ? "n-1" : "0"); }
+		case TK_HUGE: { static const char *hn[] = { "insert(2^62)", "set(2^62)", "get(2^62)", "resize(2^62)", "reserve(2^62)" }; return fmt("%s.%s", w, hn[in.b]); }
 		case TK_SWAP: return "swap(t0,t1)";
 		}
 		return "?";
@@ -1160,7 +1239,7 @@ struct TSys {
 	{
 		const Inst &in = g_ttab[op];
 		relabel(); fault = 0; asan_error();
-		if (in.k == TK_SWAP) { if (h.p[0] == h.p[1]) return false; std::swap(h.p[0], h.p[1]); std::swap(m[0], m[1]); return true; }
+		if (in.k == TK_SWAP) { ++nap; if (h.p[0] == h.p[1]) return false; std::swap(h.p[0], h.p[1]); std::swap(m[0], m[1]); return true; }
 		std::string name = opname(op), hint = name.substr(0, name.find('('));
 		r.hint(hint.c_str());
 		bool frontier = r.cur.size() == nap + 2; ++nap;
@@ -1230,6 +1309,32 @@ struct TSys {
 			fault = guarded([&] { mc::Lib l; ok = u(w)->detach(); });
 			if (!fault) moved();
 			return check(base, desc, w, !ok); }
+		case TK_INSOWN: {
+			// the value argument refers to an element of the array itself (std::vector::insert(pos, v[k]) inserts the value v[k] had before the call)
+			if (n < 2) return false;
+			long I[3] = { 0, n, n / 2 };
+			if (!dedupe(I, in.b)) return false;
+			pos = I[in.b]; long k = in.c ? n - 1 : 0; int val = mv[k];
+			mk("insert-own-element", std::string(pos < n ? "inside" : "at-end") + (n + 1 > cap ? ",exceeds-capacity" : "")); touched();
+			bool ok = false;
+			fault = guarded([&] { mc::Lib l; ok = t(0)->insert(pos, *t(0)->get(k)); });
+			if (!fault && ok) { moved(); mv.insert(mv.begin() + pos, val); stat(n + 1 > cap ? "insert-own-element,reallocating" : "insert-own-element,in-place"); }
+			return check(base, desc, 0, !ok); }
+		case TK_HUGE: {
+			// an index whose byte offset does not fit the address range lies outside the data
+			pos = 1L << 62;
+			static const char *hn[] = { "insert", "set", "get", "resize", "reserve" };
+			mk(hn[in.b], "beyond-address-range"); touched();
+			bool ok = false;
+			fault = guarded([&] { mc::Lib l;
+				switch (in.b) {
+				case 0: if (w == 0) ok = t(0)->insert(pos, 777); else { int *e = u(2)->insert(pos); if (e) { ok = true; if (e >= (int *) (h.buf(w) + 1) && e < (int *) ((uint8_t *) (h.buf(w) + 1) + h.buf(w)->_used)) *e = 777; } } break;
+				case 1: ok = u(w)->set(pos, 555); break;
+				case 2: ok = u(w)->get(pos) != 0; break;
+				case 3: ok = u(w)->resize(pos); break;
+				default: ok = u(w)->reserve(pos); } });
+			if (!fault) { moved(); stat(ok ? "index-beyond-address-range:accepted" : "index-beyond-address-range:refused"); }
+			return check(base, desc, w, !ok, in.b != 4); }
 		case TK_OFFSET: {
 			if (in.b < 2 && !n) return false;
 			if (in.b == 1 && n < 2) return false;
@@ -1352,7 +1457,7 @@ struct PSys {
 	{
 		const Inst &in = g_ptab[op];
 		fault = 0; asan_error();
-		if (in.k == PK_SWAP) { if (h.p[0] == h.p[1]) return false; std::swap(h.p[0], h.p[1]); std::swap(m[0], m[1]); return true; }
+		if (in.k == PK_SWAP) { ++nap; if (h.p[0] == h.p[1]) return false; std::swap(h.p[0], h.p[1]); std::swap(m[0], m[1]); return true; }
 		std::string name = opname(op), hint = name.substr(0, name.find('('));
 		r.hint(hint.c_str());
 		bool frontier = r.cur.size() == nap + 2; ++nap;
@@ -1398,12 +1503,12 @@ struct PSys {
 			long i1 = A[in.a], i2 = B[in.b];
 			bool must = i1 < 0 || i1 >= n || i2 < 0 || i2 >= n;
 			mk("pointer_array::swap", must ? "outside" : "inside"); touched();
-			bool ok = false;
+			bool ok = false, was_shared = b && (b->get_flags() & mpt::BufferShared);
 			fault = guarded([&] { mc::Lib l; ok = p(0)->swap(i1, i2); });
 			if (!fault && ok && !must) {
-				// swap is a const member working on the stored pointers: it is not one of the operations the property lists, so the exchange being
-				// visible through handles sharing the buffer is counted, not flagged
-				for (int k = 0; k < 3; ++k) if (h.p[k] == h.p[0]) { std::swap(m[k][i1], m[k][i2]); if (k) stat("swap-visible-through-shared-handle(not flagged)"); }
+				// two element assignments through this handle: handles sharing the buffer must keep their order
+				std::swap(mv[i1], mv[i2]);
+				if (was_shared && i1 != i2 && mv[i1] != mv[i2]) stat("swap-on-shared-buffer");
 			}
 			return check(base, desc, 0, !ok, must); }
 		case PK_UNUSED: {
@@ -1522,7 +1627,7 @@ struct MSys {
 	{
 		const Inst &in = g_mtab[op];
 		fault = 0; asan_error();
-		if (in.k == MK_SWAP) { if (h.p[0] == h.p[1]) return false; std::swap(h.p[0], h.p[1]); std::swap(m[0], m[1]); return true; }
+		if (in.k == MK_SWAP) { ++nap; if (h.p[0] == h.p[1]) return false; std::swap(h.p[0], h.p[1]); std::swap(m[0], m[1]); return true; }
 		std::string name = opname(op), hint = name.substr(0, name.find('('));
 		r.hint(hint.c_str());
 		bool frontier = r.cur.size() == nap + 2; ++nap;
@@ -1627,6 +1732,7 @@ static int depth_of(Tier t, char fam, uint64_t init)
 }
 void mc_jobs(Tier t, std::vector<std::string> &jobs)
 {
+	jobs.push_back("t:0"); jobs.push_back("p:0"); jobs.push_back("m:0");      // short jobs first: they are not cut off when a defective tree slows the byte families down
 	for (const char *fam : { "c", "x" }) {
 		jobs.push_back(std::string(fam) + ":0");
 		for (int fill = 0; fill < 2; ++fill) for (int tr = 0; tr < 3; ++tr) for (int fl = 0; fl < 4; ++fl) {
@@ -1640,7 +1746,6 @@ void mc_jobs(Tier t, std::vector<std::string> &jobs)
 		jobs.push_back(fmt("c:%d", 100 + k));
 	}     // used {60,64,65,130,200} x {sole, immutable, shared, shared+immutable} x {raw,'y','n','d'}
 	for (int k = 0; k < 6; ++k) jobs.push_back(fmt("c:%d", 25 + k));      // element size 2/4/8 x {three elements, one element below capacity}
-	jobs.push_back("t:0"); jobs.push_back("p:0"); jobs.push_back("m:0");
 }
 static void required(Run &r, char fam)
 {
@@ -1650,12 +1755,15 @@ static void required(Run &r, char fam)
 		"reallocated", "target-shared-or-immutable", "slice-consume:ok", "slice-write:consumed-window,sole", "slice-write:consumed-window,shared",
 		"slice-write:compaction,shorter-than-old-data", "slice-write:compaction,longer-than-old-data",
 		"typed-elements:aligned,ok", "typed-elements:aligned,refused", "typed-elements:misaligned,refused",
-		"buffer_detach:ok", "buffer_detach:refused", "detach:content-cut(not flagged)", "detach:request-more-than-a-unit-below-used", "set:front-of-large-content", 0 };
+		"buffer_detach:ok", "buffer_detach:refused", "detach:content-cut(not flagged)", "detach:request-more-than-a-unit-below-used", "set:front-of-large-content",
+		"huge-argument:refused", "reserve:same-type,private-copy-keeps-content", 0 };
 	static const char *x[] = { "array::append:ok", "array::insert:ok", "array::insert:refused", "array::set:ok", "array::operator=:ok", "array::operator=(slice):ok", "array::operator+=:ok", "printf:ok",
 		"slice::shift:ok", "slice::shift:refused", "slice::trim:ok", "slice::trim:refused", "slice_write:ok", "reallocated", "target-shared-or-immutable",
-		"slice-write:consumed-window,sole", "slice-write:consumed-window,shared", "slice-write:compaction,shorter-than-old-data", 0 };
-	static const char *t[] = { "insert:ok", "insert:refused", "set:ok", "set:refused", "get:ok", "get:refused", "resize:ok", "resize:refused", "reserve:ok", "detach:ok", "assign:ok", "reallocated", "target-shared-or-immutable", 0 };
-	static const char *p[] = { "pointer_array::insert:ok", "pointer_array::set:ok", "pointer_array::compact:ok", "pointer_array::swap:ok", "pointer_array::swap:refused", "assign:ok", "target-shared-or-immutable", 0 };
+		"slice-write:consumed-window,sole", "slice-write:consumed-window,shared", "slice-write:compaction,shorter-than-old-data",
+		"huge-argument:refused", "append-own-content,in-place", "append-own-content,reallocating", 0 };
+	static const char *t[] = { "insert:ok", "insert:refused", "set:ok", "set:refused", "get:ok", "get:refused", "resize:ok", "resize:refused", "reserve:ok", "detach:ok", "assign:ok", "reallocated", "target-shared-or-immutable",
+		"insert-own-element,in-place", "insert-own-element,reallocating", "index-beyond-address-range:refused", 0 };
+	static const char *p[] = { "pointer_array::insert:ok", "pointer_array::set:ok", "pointer_array::compact:ok", "pointer_array::swap:ok", "pointer_array::swap:refused", "assign:ok", "target-shared-or-immutable", "swap-on-shared-buffer", 0 };
 	static const char *m[] = { "map::set:ok", "map::append:ok", "map::get:ok", "map::values:ok", "assign:ok", "target-shared-or-immutable", 0 };
 	const char **k = fam == 'c' ? c : (fam == 'x' ? x : (fam == 't' ? t : (fam == 'p' ? p : m)));
 	for (; *k; ++k) r.require(std::string(1, fam) + ":" + *k);
